@@ -9,7 +9,9 @@ import Thanos.Generated.Facts
   specification: Model/DownsampleSpec.lean (`runs` = grouping by window).
   Domain of the theorems: timestamps ≥ 0 and strictly increasing, resolution > 0, values finite
   floats (|v| ≤ MaxFloat64), numChunks ≥ 1.  Negative timestamps are outside: `currentWindow`
-  uses Go's truncating `%` and the loop uses −1 as "no window yet".
+  uses Go's truncating `%` and the loop uses −1 as "no window yet" — the real code was run there
+  (corpus/C36/negative-timestamps.ops): it loses samples; see `C36_full_false` / `C36_partial` and
+  the registered finding `negative-timestamp-samples-lost`.
 -/
 namespace Thanos.Downsample
 
@@ -367,6 +369,38 @@ theorem C36_wellformed (r : Int) (hr : 0 < r) (data : List Raw) (nc : Nat) (hnc 
     obtain ⟨p, hp, rfl⟩ := List.mem_map.mp ht
     obtain ⟨c, hcm, hpc⟩ := List.mem_flatMap.mp hp
     exact hrange c hcm p.1 (List.mem_map.mpr ⟨p, hpc, rfl⟩)
+
+/-! ### full strength: all strictly increasing series, timestamps before 1970 included -/
+
+/-- C36 (its totals part) without the restriction to timestamps ≥ 0 -/
+def C36_full : Prop :=
+  ∀ (r : Int) (data : List Raw) (nc : Nat), 0 < r → 0 < nc → SortedRaw data →
+    (∀ p ∈ data, minInt64 < p.1 ∧ p.1 < maxInt64) → (∀ p ∈ dropNaN data, Finite p.2) →
+    ∃ chunks, downsampleRaw data r nc = some chunks ∧
+      ((chunks.flatMap (·.count)).map (·.2)).sum = ((dropNaN data).length : Int)
+
+/-- F36: the code as it is loses samples with negative timestamps (`currentWindow` truncates
+    towards zero and `downsampleBatch` uses `nextT = -1` as "no window yet"): of the two samples
+    at −5 and 3 only one is counted. -/
+theorem C36_full_false : ¬ C36_full := by
+  intro h
+  obtain ⟨chunks, hc, hs⟩ := h 50 [(-5, some 7), (3, some 9)] 1 (by decide) (by decide) (by simp [SortedRaw])
+    (by decide) (by decide)
+  have : downsampleRaw [(-5, some 7), (3, some 9)] 50 1 =
+      some [{ mint := 3, maxt := 3, count := [(3, 1)], sum := [(3, 9)], min := [(3, 9)], max := [(3, 9)],
+              counter := [(-5, 7), (3, 9), (3, 9)] }] := by decide
+  rw [this] at hc
+  cases hc
+  revert hs
+  decide
+
+/-- … and holds exactly when no timestamp is negative (this is `C36_totals`; the window-level
+    statements `C36_windows` … `C36_readback` have the same hypothesis `RawOK`) -/
+theorem C36_partial (r : Int) (data : List Raw) (nc : Nat) (hr : 0 < r) (hnc : 0 < nc) (ok : RawOK data) :
+    ∃ chunks, downsampleRaw data r nc = some chunks ∧
+      ((chunks.flatMap (·.count)).map (·.2)).sum = ((dropNaN data).length : Int) := by
+  obtain ⟨chunks, hc, h1, _⟩ := C36_totals r hr data nc hnc ok
+  exact ⟨chunks, hc, h1⟩
 
 /-- Regenerated obligations: the conditions and expressions of the source that the model
     transliterates (a change of any of them breaks this theorem at `lake build` time). -/
